@@ -57,6 +57,25 @@ def run_proc(exe, env, mode, out, extra, timeout, cpu=None, memlimit_kb=6_000_00
     return res, p.stdout
 
 
+def merge_summaries(parts):
+    m = dict(parts[0])
+    for p in parts[1:]:
+        for k in ("runs", "nontrivial", "steps", "sim_ns", "wall_ns"):
+            m[k] = m.get(k, 0) + p.get(k, 0)
+        m["hashes"] = (m.get("hashes") or []) + (p.get("hashes") or [])
+        for k in ("probes", "faults", "inconclusive", "seed_hash"):
+            d = dict(m.get(k) or {})
+            for kk, vv in (p.get(k) or {}).items():
+                d[kk] = (d.get(kk, 0) + vv) if isinstance(vv, (int, float)) else vv
+            m[k] = d
+        m["violations"] = (m.get("violations") or []) + (p.get("violations") or [])
+        m["samples"] = (m.get("samples") or []) + (p.get("samples") or [])
+        if p.get("harness_error"):
+            m["harness_error"] = p["harness_error"]
+    m.pop("next", None)
+    return m
+
+
 class Check:
     """Subclass/instantiate per property. cfg keys:
     prop, engine, pkg (package dir rel. to repo), harness (dir under props/), level, rule,
@@ -112,6 +131,21 @@ class Check:
             if extra_env:
                 extra.update(extra_env)
             res, log = run_proc(exe, env, mode, out, extra, timeout=int(left) + 30, cpu=cpu)
+            # a batch process stops early after a run that left the process tainted (simulated fatal
+            # error / deadlock: abandoned tasks may hold repo locks); continue in fresh processes
+            parts = [res]
+            hops = 0
+            while res is not None and res.get("next") and res["next"] < frm + n and hops < 50:
+                hops += 1
+                nxt = res["next"]
+                left = deadline - time.time()
+                if left < 5:
+                    break
+                extra2 = dict(extra, VERIF_FROM=nxt, VERIF_COUNT=frm + n - nxt, VERIF_BUDGET_S=int(left))
+                res, log = run_proc(exe, env, mode, out + ".%d" % hops, extra2, timeout=int(left) + 30, cpu=cpu)
+                parts.append(res)
+            if len(parts) > 1 and all(p is not None for p in parts):
+                res = merge_summaries(parts)
             return ("done", job, (res, log))
 
         with concurrent.futures.ThreadPoolExecutor(max_workers=workers or NCPU) as ex:
@@ -165,6 +199,19 @@ class Check:
         with open(cpath, "w") as f:
             json.dump(case, f)
         mpath = os.path.join(workdir, "min-%s.json" % tag)
+        vio = str(case.get("violation", ""))
+        if vio.startswith("fatal/") or vio == "deadlock":
+            # The run ends with its tasks abandoned mid-flight (possibly holding repo locks), which
+            # taints the process: no in-process shrinking. The case and its recorded schedule are
+            # replayed in two fresh processes and must give exactly the same class.
+            for k in range(2):
+                o, log = run_proc(exe, env, "replay", os.path.join(workdir, "rp-%s-%d.json" % (tag, k)), {"VERIF_CASE": cpath}, timeout=600, cpu=[1, 16][k])
+                if o is None:
+                    return None, "replay failed: " + str(log)[-2000:]
+                if o.get("violation") != vio:
+                    return None, "case does not replay (want %r got %r)" % (vio, o.get("violation"))
+            return dict(case, detail=o.get("detail", case.get("detail", "")), log=(o.get("log") or [])[-60:],
+                        note="fatal-error/deadlock class: replayed in fresh processes, not minimised (see DESIGN.md)"), None
         if str(case.get("violation", "")).startswith("race/"):
             # Race-detector classes are not shrunk: which of several racing access pairs is reported
             # first depends on the detector's shadow state, i.e. on what ran earlier in the process.
@@ -349,6 +396,8 @@ class Check:
                     problems.append("violation class %s seen (%d runs) but could not be confirmed: %s" % (sig, len(lst), err))
                     continue
                 msig = mini.get("violation")
+                if msig in [v[0] for v in violations]:
+                    continue  # several batch-time classes resolved to one class on replay
                 kf = [k for k in known if fnmatch.fnmatchcase(str(msig), k[0])]
                 if kf:
                     known_hits[msig] = kf[0][1]
